@@ -107,6 +107,29 @@ def _is_unicode_punctuation(c: str) -> bool:
     )
 
 
+def _link_destination(dest: str, has_title: bool = False) -> str:
+    """
+    Write a link destination so that it reads back as the same destination. The plain form
+    cannot hold whitespace, `<` or unbalanced parentheses, nor an empty destination in front
+    of a title; those need the `<...>` form (with `<` and `>` escaped).
+    """
+    if not dest:
+        return "<>" if has_title else ""
+    depth = 0
+    balanced = True
+    for c in dest:
+        if c == "(":
+            depth += 1
+        elif c == ")":
+            depth -= 1
+            if depth < 0:
+                balanced = False
+                break
+    if balanced and depth == 0 and not any(c.isspace() or c in "<>" for c in dest):
+        return dest
+    return "<" + dest.replace("<", "\\<").replace(">", "\\>") + ">"
+
+
 class CustomStrikethrough(gfm_elements.Strikethrough):
     """
     Fixed Strikethrough that implements GFM flanking delimiter rules.
@@ -580,7 +603,8 @@ class MarkdownNormalizer(Renderer):
                 return f"[{label}]"
             return f"[{link_text}][{label}]"
         title = f" {link_title}" if link_title is not None else ""
-        return f"[{link_text}]({element.dest}{title})"
+        dest = _link_destination(element.dest, link_title is not None)
+        return f"[{link_text}]({dest}{title})"
 
     def render_auto_link(self, element: inline.AutoLink) -> str:
         return f"<{element.dest}>"
@@ -588,7 +612,8 @@ class MarkdownNormalizer(Renderer):
     def render_image(self, element: inline.Image) -> str:
         template = "![{}]({}{})"
         title = f" {_normalize_title_quotes(element.title)}" if element.title else ""
-        return template.format(self.render_children(element), element.dest, title)
+        dest = _link_destination(element.dest, bool(element.title))
+        return template.format(self.render_children(element), dest, title)
 
     def render_literal(self, element: inline.Literal) -> str:
         """
